@@ -1,7 +1,121 @@
-(* C11 -- tag management calls are total, atomic and keep the tag graph well-formed. *)
+(* C11 -- tag management calls are total, atomic and keep the tag graph well-formed.
+
+   Model: theories/TagApi.v (AddTag, DelTag, UpdateTag with its six exported operations,
+   inheritTagUncertainty, written after internal/index/manager/manager.go with
+   fixes/C11-1..3 applied).  [parse] is query.Parse as an arbitrary function: every theorem
+   holds for every parser.  Results: Ok | Err e | Crash (nil dereference in the service
+   loop) | Hang (a loop of the service goroutine that does not end).  *)
 From Coq Require Import List String NArith.
 Require Import Pk.TagApi Pk.TagApiProofs.
+Import ListNotations.
+Open Scope string_scope.
 
-Theorem c11_del_error_unchanged_partial :
-  forall st nm e st', del_tag st nm = (Err e, st') -> st' = st.
-Proof. exact del_tag_error_unchanged. Qed.
+(* The tag graph invariant (TagApiProofs.wf_tags): keys unique (NoDup (keys ts)); references
+   closed (closed ts: every referenced name is a key); referencedBy = inverse of the references
+   (mirror ts); a rank function strictly decreasing along references (acyclic ts), which excludes
+   every reference cycle (theorem c11_no_reference_cycle, over the inductive [reach]). *)
+
+(* 1. TOTAL + ATOMIC + INVARIANT, one call: on a well-formed table every API call is either
+      applied (Ok, table again well-formed, converters / stream count untouched) or rejected
+      (Err e) with the state unchanged.  Crash and Hang do not occur. *)
+Theorem c11_call_total_atomic_wf :
+  forall (parse : string -> parse_result) (st : state) (c : call),
+    wf_tags (tags st) ->
+    (fst (step parse st c) = Ok /\ wf_tags (tags (snd (step parse st c)))
+       /\ convs (snd (step parse st c)) = convs st /\ next_id (snd (step parse st c)) = next_id st)
+    \/ (exists e, fst (step parse st c) = Err e /\ snd (step parse st c) = st).
+Proof. exact step_good. Qed.
+
+(* 2. ATOMIC for every state, well-formed or not: whatever is not Ok leaves the state unchanged. *)
+Theorem c11_not_ok_unchanged :
+  forall parse st c r st', step parse st c = (r, st') -> r <> Ok -> st' = st.
+Proof. exact step_atomic. Qed.
+
+(* 3. EVERY HISTORY: after any finite sequence of calls (arbitrary names, definitions, ids,
+      converter names) from the empty table the table is well-formed ... *)
+Theorem c11_history_wf :
+  forall parse cv next (cs : list call), wf_tags (tags (run parse (init_state cv next) cs)).
+Proof. exact history_wf. Qed.
+
+(* ... and the next call is answered with nil or with an error that changes nothing. *)
+Theorem c11_history_total_atomic :
+  forall parse cv next (cs : list call) (c : call),
+    let st := run parse (init_state cv next) cs in
+    fst (step parse st c) = Ok \/ exists e, fst (step parse st c) = Err e /\ snd (step parse st c) = st.
+Proof. exact history_total_atomic. Qed.
+
+(* 4. What the invariant means. *)
+Theorem c11_no_missing_reference :
+  forall ts k t r, wf_tags ts -> get ts k = Some t -> In r (refs t) -> exists tr, get ts r = Some tr.
+Proof. exact wf_no_dangling. Qed.
+
+Theorem c11_no_reference_cycle : forall ts a, wf_tags ts -> ~ reach ts a a.
+Proof. exact wf_no_cycle. Qed.
+
+Theorem c11_referenced_flag_mirrors_definitions :
+  forall ts a ta, wf_tags ts -> get ts a = Some ta ->
+    (referenced ta = true <-> exists b tb, get ts b = Some tb /\ In a (refs tb)).
+Proof. exact wf_referenced_mirrors. Qed.
+
+(* 5. A tag that others reference cannot be deleted or renamed. *)
+Theorem c11_referenced_tag_not_deletable :
+  forall st nm st' b tb, wf_tags (tags st) -> del_tag st nm = (Ok, st') ->
+    get (tags st) b = Some tb -> ~ In nm (refs tb).
+Proof. exact del_guard. Qed.
+
+Theorem c11_referenced_tag_not_renamable :
+  forall st nm nn st' b tb, wf_tags (tags st) -> nn <> "" -> update_name st nm nn = (Ok, st') ->
+    get (tags st) b = Some tb -> ~ In nm (refs tb).
+Proof. exact rename_guard. Qed.
+
+(* 6. inheritTagUncertainty terminates on every well-formed table within |tags| passes and
+      only changes the uncertain sets. *)
+Theorem c11_inherit_uncertainty_terminates :
+  forall all ts, wf_tags ts ->
+    exists ts' res', inherit_uncertainty all ts = Some (ts', res') /\ same_graph ts ts' /\ keys ts' = keys ts.
+Proof. exact inherit_terminates. Qed.
+
+(* 7. The reference walk added by the patch never runs out of its fuel (the fuel is a proof
+      device, the Go loop has none). *)
+Theorem c11_reference_walk_fuel_suffices :
+  forall ts nm todo, dfs (dfs_fuel ts todo) ts nm todo [] <> DFuel.
+Proof. exact dfs_initial_fuel. Qed.
+
+(* 8. The UNPATCHED UpdateTag (update_query_orig): reproduced on the Go code before the patches,
+      corpus/C11/01 and 02. *)
+Theorem c11_unpatched_update_crashes_refuted :
+  fst (step_orig demo_parse (run_orig [CAdd "tag/b" "red" "sport:80"]) (CUpd "tag/b" (UQuery "tag:zz"))) = Crash.
+Proof. exact orig_unknown_reference_crashes. Qed.
+
+Theorem c11_unpatched_update_hangs_refuted :
+  fst (step_orig demo_parse (run_orig [CAdd "tag/a" "red" "sport:80"; CAdd "tag/b" "red" "tag:a"])
+                 (CUpd "tag/a" (UQuery "tag:b"))) = Hang.
+Proof. exact orig_cycle_hangs. Qed.
+
+Theorem c11_cyclic_table_never_resolves_refuted :
+  forall fuel all, inherit_loop fuel all cyc_tags [] = None.
+Proof. exact cycle_never_resolves. Qed.
+
+(* Non-vacuity: the hypotheses are satisfiable and the interesting branches are taken. *)
+Example c11_ex_wf_nonempty :
+  let st := run demo_parse (init_state [] 4%N) [CAdd "tag/a" "red" "sport:80"; CAdd "tag/b" "red" "tag:a"] in
+  wf_tags (tags st) /\ List.length (tags st) = 2.
+Proof. split; [apply history_wf|vm_compute; reflexivity]. Qed.
+
+Example c11_ex_patched_rejects_unknown :
+  let st := run demo_parse (init_state [] 4%N) [CAdd "tag/b" "red" "sport:80"] in
+  step demo_parse st (CUpd "tag/b" (UQuery "tag:zz")) = (Err EUnknownRef, st).
+Proof. exact fixed_unknown_reference_rejected. Qed.
+
+Example c11_ex_patched_rejects_cycle :
+  let st := run demo_parse (init_state [] 4%N) [CAdd "tag/a" "red" "sport:80"; CAdd "tag/b" "red" "tag:a"] in
+  step demo_parse st (CUpd "tag/a" (UQuery "tag:b")) = (Err ECycle, st).
+Proof. exact fixed_cycle_rejected. Qed.
+
+Example c11_ex_delete_referenced_rejected :
+  let st := run demo_parse (init_state [] 4%N) [CAdd "tag/a" "red" "sport:80"; CAdd "tag/b" "red" "tag:a"] in
+  step demo_parse st (CDel "tag/a") = (Err EReferenced, st)
+  /\ fst (step demo_parse st (CUpd "tag/a" (UName "tag/c"))) = Err EReferenced
+  /\ fst (step demo_parse st (CUpd "tag/b" (UName "tag/c"))) = Ok
+  /\ fst (step demo_parse st (CUpd "tag/b" (UQuery "sport:80"))) = Ok.
+Proof. vm_compute. repeat split; reflexivity. Qed.
